@@ -9,28 +9,38 @@
 //!    front forwards `<op> <args…>` to the worker built in configuration `<conf>` (resp. to every
 //!    configuration listed in the manifest `DASHU_CFG_MANIFEST`: lines `<conf> <path to worker>`),
 //!    prints the worker's answer verbatim, and for `cfgall` prints the common answer or
-//!    `config-disagree <conf>=<answer>|…` when the builds do not agree byte for byte.
+//!    `config-disagree <conf>=<answer> || …` when the builds do not agree byte for byte.
+#[cfg(cfg_worker)]
 #[path = "../ops_bits.rs"]
 mod ops_bits;
+#[cfg(cfg_worker)]
 #[path = "../ops_cmp.rs"]
 mod ops_cmp;
+#[cfg(cfg_worker)]
 #[path = "../ops_conv.rs"]
 mod ops_conv;
+#[cfg(cfg_worker)]
 #[path = "../ops_cross.rs"]
 mod ops_cross;
+#[cfg(cfg_worker)]
 #[path = "../ops_float.rs"]
 mod ops_float;
+#[cfg(cfg_worker)]
 #[path = "../ops_nt.rs"]
 mod ops_nt;
+#[cfg(cfg_worker)]
 #[path = "../ops_ratio.rs"]
 mod ops_ratio;
+#[cfg(cfg_worker)]
 #[path = "../ops_div.rs"]
 mod ops_div;
+#[cfg(cfg_worker)]
 #[path = "../ops_int.rs"]
 mod ops_int;
-#[cfg(feature = "serde")]
+#[cfg(all(cfg_worker, feature = "serde"))]
 #[path = "../ops_serde.rs"]
 mod ops_serde;
+#[cfg(cfg_worker)]
 #[path = "../ops_text.rs"]
 mod ops_text;
 
@@ -38,7 +48,7 @@ use std::collections::BTreeMap;
 use std::io::{BufRead, BufReader, Write};
 use std::process::{Child, ChildStdin, ChildStdout, Command, Stdio};
 
-#[cfg(not(feature = "serde"))]
+#[cfg(all(cfg_worker, not(feature = "serde")))]
 mod ops_serde {
     pub fn dispatch(_op: &str, _args: &[&str]) -> Option<verif_harness::util::Res> {
         None
@@ -46,6 +56,7 @@ mod ops_serde {
 }
 
 /// C19 clause (2): `EstimatedLog2::log2_bounds` in this build (std: f32::log2, no_std: table)
+#[cfg(cfg_worker)]
 mod ops_log {
     use dashu_base::EstimatedLog2;
     use verif_harness::util::*;
@@ -76,11 +87,11 @@ mod ops_log {
                 "lg.u" => Ok(bits(p_ubig(arg(args, 0)?)?.log2_bounds())),
                 "lg.i" => Ok(bits(p_ibig(arg(args, 0)?)?.log2_bounds())),
                 "lg.range" => {
-                    // checksum over the bounds of every u16 value in [lo, hi), through the widest type
-                    // that still takes the 16-bit path (the impls of u16..u128 agree on such values)
+                    // the bounds of every u16 value in [lo, hi) as `lb:ub` bit patterns (through u16, u32 and
+                    // u128, whose impls must agree on such values)
                     let lo = p_usize(arg(args, 0)?)?;
                     let hi = p_usize(arg(args, 1)?)?;
-                    let mut acc: u128 = 0;
+                    let mut out: Vec<String> = Vec::with_capacity(hi.saturating_sub(lo));
                     for x in lo..hi {
                         let b = (x as u16).log2_bounds();
                         let b32 = (x as u32).log2_bounds();
@@ -89,9 +100,9 @@ mod ops_log {
                             || b.0.to_bits() != b128.0.to_bits() || b.1.to_bits() != b128.1.to_bits() {
                             return Ok(format!("types-disagree-at-{}", x));
                         }
-                        acc = (acc * 1000003 + b.0.to_bits() as u128 * 65599 + b.1.to_bits() as u128) % 2305843009213693951;
+                        out.push(format!("{:x}:{:x}", b.0.to_bits(), b.1.to_bits()));
                     }
-                    Ok(format!("{:x}", acc))
+                    Ok(out.join(","))
                 }
                 _ => Err(format!("bad-op {}", op)),
             }
@@ -99,6 +110,7 @@ mod ops_log {
     }
 }
 
+#[cfg(cfg_worker)]
 /// `<group>/<op>`: the op as the binary `exec_<group>` dispatches it (same modules, same order), so
 /// that every property's case generator can be replayed in every configuration without op-name clashes
 fn grouped(op: &str, args: &[&str]) -> Option<verif_harness::util::Res> {
@@ -124,6 +136,7 @@ fn grouped(op: &str, args: &[&str]) -> Option<verif_harness::util::Res> {
 }
 
 /// which configuration this binary was compiled in (worker op `cfg.self`)
+#[cfg(cfg_worker)]
 fn self_config(op: &str, _args: &[&str]) -> Option<verif_harness::util::Res> {
     if op != "cfg.self" {
         return None;
@@ -246,8 +259,8 @@ fn front() {
                 } else if answers.iter().all(|(_, a)| *a == answers[0].1) {
                     answers[0].1.clone()
                 } else {
-                    let v: Vec<String> = answers.iter().map(|(c, a)| format!("{}={}", c, a.replace(' ', "_"))).collect();
-                    format!("config-disagree {}", v.join("|"))
+                    let v: Vec<String> = answers.iter().map(|(c, a)| format!("{}={}", c, a)).collect();
+                    format!("config-disagree {}", v.join(" || "))
                 }
             }
             _ => format!("bad-op {}", op),
@@ -261,19 +274,31 @@ fn front() {
     }
 }
 
+#[cfg(cfg_worker)]
+fn worker() {
+    verif_harness::run_main(&[
+        self_config,
+        grouped,
+        ops_serde::dispatch,
+        ops_log::dispatch,
+        ops_int::dispatch,
+        ops_div::dispatch,
+        ops_bits::dispatch,
+        ops_text::dispatch,
+        ops_text::dispatch_float,
+    ]);
+}
+
+/// the front (built by `./check` without `--cfg cfg_worker`) carries none of the ops modules: it only forwards
+#[cfg(not(cfg_worker))]
+fn worker() {
+    eprintln!("this exec_cfg was built without --cfg cfg_worker (vlib/cfgbuild.py builds the workers)");
+    std::process::exit(4);
+}
+
 fn main() {
     if std::env::var_os("DASHU_CFG_WORKER").is_some() {
-        verif_harness::run_main(&[
-            self_config,
-            grouped,
-            ops_serde::dispatch,
-            ops_log::dispatch,
-            ops_int::dispatch,
-            ops_div::dispatch,
-            ops_bits::dispatch,
-            ops_text::dispatch,
-            ops_text::dispatch_float,
-        ]);
+        worker();
     } else {
         front();
     }
